@@ -16,9 +16,13 @@ instance, both shown by concrete counter-examples below:
   and the model TL1 writer refuses it (`tl1_canonical_fails_at_bit`); it never occurs as a TL1 type of
   its own in exported descriptors, the guard `Desc.noBit` states that.
 
-Proved: `tl1_canonical` under the decidable guards `Desc.noDict` and `Desc.noBit`;
-`tl1_canonical_dict_partial` for all `noBit` descriptors (dictionaries included): the re-encoding
-exists and is not longer than what was consumed.
+Proved: `tl1_canonical_on`: the statement for every type of a set `S` of instances that is closed under
+type references (`Desc.closed`, decidable; e.g. `d.reach ty`) and contains neither a dictionary nor `bit`
+— so a dictionary somewhere in a schema does not spoil the theorem for the types that cannot reach it
+(real descriptors do contain dictionaries and an unreferenced `bit` instance); `tl1_canonical` is the
+whole-descriptor special case (`Desc.noDict`, `Desc.noBit`);
+`tl1_canonical_dict_partial(_on)` (dictionaries allowed): the re-encoding exists and is not longer than
+what was consumed.
 -/
 namespace TLVerif.Props.C02
 open TLVerif.Prim TLVerif.Codec
@@ -29,25 +33,44 @@ def TL1CanonicalStatement (cfg : Cfg) (d : Desc) : Prop :=
     readTL1 cfg d fuel ty bare params bs = .ok (v, rest) →
     ∃ pre, bs = pre ++ rest ∧ writeTL1 d fuel ty bare params v = .ok pre
 
-/-- **C02** for descriptors without map-backed dictionaries (and without a lone TL2 `bit`). -/
+/-- **C02** on a reference-closed set `S` of instances containing no dictionary and no `bit`:
+every type in `S` satisfies the full-strength statement. -/
+theorem tl1_canonical_on (cfg : Cfg) (d : Desc) (S : Nat → Bool) (hcl : d.closed S = true)
+    (hnd : d.allOn S (fun i => !i.isDict) = true) (hnb : d.allOn S (fun i => !i.isBitPrim) = true)
+    (fuel ty : Nat) (bare : Bool) (params : List Nat) (bs : Bytes) (v : Val) (rest : Bytes)
+    (hS : S ty = true) (h : readTL1 cfg d fuel ty bare params bs = .ok (v, rest)) :
+    ∃ pre, bs = pre ++ rest ∧ writeTL1 d fuel ty bare params v = .ok pre := by
+  obtain ⟨pre, w, e, hw, r⟩ := readTL1_canonR ByteRel.eq cfg d S hcl hnb (Or.inl hnd) fuel _ _ _ _ _ _ hS h
+  exact ⟨pre, e, by rw [hw, r]⟩
+
+/-- **C02** for descriptors without map-backed dictionaries (and without a TL2 `bit` instance). -/
 theorem tl1_canonical (cfg : Cfg) (d : Desc) (hnd : d.noDict = true) (hnb : d.noBit = true) :
     TL1CanonicalStatement cfg d := by
   intro fuel ty bare params bs v rest h
-  obtain ⟨pre, w, e, hw, r⟩ := readTL1_canonR ByteRel.eq cfg d hnb (Or.inl hnd) fuel _ _ _ _ _ _ h
-  exact ⟨pre, e, by rw [hw, r]⟩
+  exact tl1_canonical_on cfg d allInsts (Desc.closed_all d) (Desc.allOn_all hnd _) (Desc.allOn_all hnb _)
+    fuel ty bare params bs v rest rfl h
 
 /-- **C02**, general version (dictionaries allowed): the decoded value (with dictionaries normalised
 by `dictNormalize`: sorted by key, a later duplicate replacing an earlier one) is accepted by the writer, and its
 encoding is not longer than the consumed prefix. -/
+theorem tl1_canonical_dict_partial_on (cfg : Cfg) (d : Desc) (S : Nat → Bool) (hcl : d.closed S = true)
+    (hnb : d.allOn S (fun i => !i.isBitPrim) = true)
+    (fuel ty : Nat) (bare : Bool) (params : List Nat) (bs : Bytes) (v : Val) (rest : Bytes)
+    (hS : S ty = true) (h : readTL1 cfg d fuel ty bare params bs = .ok (v, rest)) :
+    ∃ pre, bs = pre ++ rest ∧ ∃ w, writeTL1 d fuel ty bare params v = .ok w ∧ w.length ≤ pre.length := by
+  obtain ⟨pre, w, e, hw, r⟩ :=
+    readTL1_canonR ByteRel.le cfg d S hcl hnb (Or.inr (fun _ _ => Iff.rfl)) fuel _ _ _ _ _ _ hS h
+  exact ⟨pre, e, w, hw, r⟩
+
+/-- whole-descriptor version of `tl1_canonical_dict_partial_on` -/
 theorem tl1_canonical_dict_partial (cfg : Cfg) (d : Desc) (hnb : d.noBit = true)
     (fuel ty : Nat) (bare : Bool) (params : List Nat) (bs : Bytes) (v : Val) (rest : Bytes)
     (h : readTL1 cfg d fuel ty bare params bs = .ok (v, rest)) :
-    ∃ pre, bs = pre ++ rest ∧ ∃ w, writeTL1 d fuel ty bare params v = .ok w ∧ w.length ≤ pre.length := by
-  obtain ⟨pre, w, e, hw, r⟩ :=
-    readTL1_canonR ByteRel.le cfg d hnb (Or.inr (fun _ _ => Iff.rfl)) fuel _ _ _ _ _ _ h
-  exact ⟨pre, e, w, hw, r⟩
+    ∃ pre, bs = pre ++ rest ∧ ∃ w, writeTL1 d fuel ty bare params v = .ok w ∧ w.length ≤ pre.length :=
+  tl1_canonical_dict_partial_on cfg d allInsts (Desc.closed_all d) (Desc.allOn_all hnb _)
+    fuel ty bare params bs v rest rfl h
 
-/-- consumed bytes are a prefix: the reader never looks at / depends on more than it reports -/
+/-- the unread rest is a suffix of the input -/
 theorem tl1_read_prefix (cfg : Cfg) (d : Desc) (hnb : d.noBit = true)
     (fuel ty : Nat) (bare : Bool) (params : List Nat) (bs : Bytes) (v : Val) (rest : Bytes)
     (h : readTL1 cfg d fuel ty bare params bs = .ok (v, rest)) : ∃ pre, bs = pre ++ rest := by
@@ -155,6 +178,10 @@ example : readTL1 {} Ex.demo 3 4 false [] (Ex.demoBytes ++ [9, 9]) = .ok (Ex.dem
 example : writeTL1 Ex.demo 3 4 false [] Ex.demoVal = .ok Ex.demoBytes := by rfl
 example : ∃ pre, Ex.demoBytes ++ [9, 9] = pre ++ [9, 9] ∧ writeTL1 Ex.demo 3 4 false [] Ex.demoVal = .ok pre :=
   tl1_canonical {} Ex.demo (by decide) (by decide) 3 4 false [] _ _ _ (by rfl)
+/-- a schema with a dictionary: the struct `holder` (index 3) cannot reach it, and the theorem applies to it -/
+example : Ex.mixedD.noDict = false ∧ Ex.mixedD.closed (Ex.mixedD.reach 3) = true ∧
+    Ex.mixedD.allOn (Ex.mixedD.reach 3) (fun i => !i.isDict) = true ∧
+    Ex.mixedD.allOn (Ex.mixedD.reach 3) (fun i => !i.isBitPrim) = true ∧ Ex.mixedD.reach 3 3 = true := by decide
 example : readTL1 {} Ex.unionD 2 3 false [] [0xc, 0, 0, 0] = .error .rej :=
   rejects_unknown_tag {} Ex.unionD 1 3 false [] _ 0xc [] rfl (by decide)
 
